@@ -152,6 +152,12 @@ def explore(ctx):
                 if a.startswith("openType"):
                     v = math.floor(Fr(v))        # UFO3: the openType* metrics are integers; the generic ones may be floats
                 info[a] = Fr(v)
+        if i % 10 == 0:
+            # rounding ties in the FALLBACK route: fractional ascender / descender (UFO allows floats there) with no OS/2 or hhea
+            # overrides; even and odd integer parts, positive and negative
+            info = {"unitsPerEm": Fr(1000), "ascender": Fr([1601, 1603, 1501][(i // 10) % 3], 2), "descender": Fr([-403, -401, -499][(i // 10) % 3], 2)}
+            if (i // 10) % 2:
+                info["openTypeOS2TypoLineGap"] = Fr(100)
         if not float_exact_ok(info):
             ctx.klass("float_guard_rejected")
             continue
@@ -202,7 +208,10 @@ def explore(ctx):
         if not v & 2:
             ctx.spec_failure(case, "an explicit attribute does not appear (rounded) in its table field, or usWin* is negative")
         elif not v & 1:
-            ctx.corr_mismatch(case, "Gallina fallback model differs from the compiled OS/2 / hhea / head fields")
+            # the Gallina table_metrics IS the documented fallback (exact rational formula, each integral field rounded half up):
+            # a field that differs from it is a concrete failing input, not only a broken correspondence
+            ctx.spec_failure(case, "an OS/2 / hhea / head field is not the documented fallback value rounded half up "
+                                   "(Gallina table_metrics differs from the compiled fields %r)" % (case.get("impl_fields"),))
     if meta:
         ctx.sample(meta[0])
 
